@@ -16,7 +16,7 @@
    residence times (any N, not only u128) and clock values >= 2000-01-01 are arbitrary. *)
 From Coq Require Import Sorting.Sorted.
 From BP7 Require Import Base.Prelude Gen.Consts Model.Types Model.Encode Model.Decode Model.Wf Model.WfExt Model.Validate Model.Ops
-  Model.OpSeq Spec.Rules Proofs.CodecUnknownCrc Proofs.InvariantProofs.
+  Model.OpSeq Model.Api Spec.Rules Proofs.CodecUnknownCrc Proofs.InvariantProofs Proofs.ApiProofs.
 
 Theorem C11_invariant : forall m b0 ops, start_ok b0 -> Forall (op_admissible b0) ops ->
   exists b, fold_res (step m) ops b0 = Ok b
@@ -140,6 +140,90 @@ Example C11_ex_unknown_typed :
   (let '(bs, b') := to_cbor ex_unk7 in match from_cbor bs with Ok d => bundle_eqb d b' | _ => false end) = false.
 Proof. vm_compute. repeat split; reflexivity. Qed.
 
+(* ================= the public constructors and builders (Model/Api.v; proofs: Proofs/ApiProofs.v) =================
+   "Starting from any valid bundle built through the public builders": BundleBuilder with its three optional setters
+   (primary / canonicals / payload), PrimaryBlockBuilder with its nine optional setters, the new_*_block constructors. *)
+(* BundleBuilder is builder_build on the block list with the payload() block pushed last; what it returns is a start state
+   as soon as it validates and its values are well formed - hence the invariant holds after every admissible sequence *)
+Theorem C11_bundle_builder : forall p cs pl,
+  bundle_builder_build p cs pl =
+  builder_build (dflt p primary_new) (dflt cs [] ++ match pl with Some d => [new_payload_block 0 d] | None => [] end).
+Proof. exact bundle_builder_is_builder_build. Qed.
+Theorem C11_from_builder : forall m p cs pl b0 ops,
+  bundle_builder_build p cs pl = Some b0 -> validate b0 = [] -> wf_bundle_u b0 = true -> Forall (op_admissible b0) ops ->
+  exists b, fold_res (step m) ops b0 = Ok b /\ Inv b /\ payload b = last_payload_set b0 ops
+            /\ (let '(bs, b') := to_cbor b in from_cbor bs = Ok b').
+Proof. intros m p cs pl b0 ops Hb Hv Hw. apply invariant_all. eapply bundle_builder_start; eassumption. Qed.
+(* extension blocks numbered above 1, in any order, and payload(d): build() succeeds, the payload block is last *)
+Theorem C11_builder_payload_last : forall p cs d, (forall c, In c cs -> 1 < c_num c) ->
+  exists b, bundle_builder_build (Some p) (Some cs) (Some d) = Some b
+            /\ b_primary b = p /\ last_opt (b_canonicals b) = Some (new_payload_block 0 d)
+            /\ b_canonicals b = sort_desc (cs ++ [new_payload_block 0 d]).
+Proof. exact bundle_builder_payload. Qed.
+(* every constructor call with in-range arguments is an admissible argument of add_canonical_block / set_payload_block *)
+Theorem C11_constructors_admissible : forall strict num flags, flags_ok strict flags = true ->
+  (forall limit, limit < 256 -> arg_block_ok strict (new_hop_count_block num flags limit) = true)
+  /\ (forall age, age < two64 -> arg_block_ok strict (new_bundle_age_block num flags age) = true)
+  /\ (forall e, wf_eid e = true -> Nlen (enc_eid e) < two64 -> arg_block_ok strict (new_previous_node_block num flags e) = true)
+  /\ (forall d, Nlen d < two64 -> arg_block_ok strict (new_payload_block flags d) = true)
+  /\ (forall ty d, ty < two64 -> is_unique_type ty = false -> Nlen d < two64 ->
+        arg_block_ok strict (new_canonical_block ty num flags (Unknown d)) = true).
+Proof. exact constructors_admissible. Qed.
+Theorem C11_constructors_valid : forall num flags,
+  (forall limit, extension_valid (new_hop_count_block num flags limit) = true)
+  /\ (forall age, extension_valid (new_bundle_age_block num flags age) = true)
+  /\ (forall e, extension_valid (new_previous_node_block num flags e) = eid_valid e)
+  /\ (forall d, extension_valid (new_payload_block flags d) = true)
+  /\ (forall ty d, extension_valid (new_canonical_block ty num flags (Unknown d)) = true).
+Proof. exact constructors_extension_valid. Qed.
+(* PrimaryBlockBuilder refuses exactly the null destination, copies every field it was given (defaults otherwise), and the
+   block validates iff the flag word and the endpoint IDs do *)
+Theorem C11_primary_builder : forall pb,
+  (primary_builder_build pb = None <-> dflt (pb_dst pb) eid_none = eid_none)
+  /\ (forall p, primary_builder_build pb = Some p ->
+        p_version p = DTN_VERSION /\ p_flags p = dflt (pb_flags pb) 0 /\ p_crc p = dflt (pb_crc pb) CrcNo
+        /\ Some (p_dst p) = pb_dst pb /\ p_dst p <> eid_none
+        /\ p_src p = dflt (pb_src pb) eid_none /\ p_rpt p = dflt (pb_rpt pb) eid_none
+        /\ (p_time p, p_seq p) = dflt (pb_ts pb) (0, 0) /\ p_lifetime p = dflt (pb_lifetime pb) 0
+        /\ p_frag_off p = dflt (pb_off pb) 0 /\ p_total_len p = dflt (pb_len pb) 0).
+Proof. intros pb. split; [apply primary_builder_refuses|apply primary_builder_fields]. Qed.
+(* new_std_payload_bundle with its builder unwrap: aborts exactly for the null destination, otherwise the start state of C11_std_bundle *)
+Theorem C11_std_bundle_api : forall src dst t seq data,
+  new_std_payload_bundle_api src dst t seq data =
+  if eid_eqb dst eid_none then Panic PUnwrap else Ok (new_std_payload_bundle src dst t seq data).
+Proof. exact std_bundle_api_spec. Qed.
+(* the block-level mutators update_extensions is written with *)
+Theorem C11_block_ops : forall c,
+  (forall l k, hop_count_get c = Some (l, k) -> k < 256 ->
+     (k < 255 -> fst (hop_count_increase c) = true /\ hop_count_get (snd (hop_count_increase c)) = Some (l, k + 1)
+                 /\ set_c_data (snd (hop_count_increase c)) (c_data c) = c)
+     /\ (k = 255 -> hop_count_increase c = (false, c)))
+  /\ (forall a age, bundle_age_get c = Some a ->
+        fst (bundle_age_update c age) = true /\ bundle_age_get (snd (bundle_age_update c age)) = Some (N.min age (two64 - 1))
+        /\ set_c_data (snd (bundle_age_update c age)) (c_data c) = c)
+  /\ (forall age, bundle_age_get c = None -> bundle_age_update c age = (false, c))
+  /\ (forall e node, previous_node_get c = Some e ->
+        fst (previous_node_update c node) = true /\ previous_node_get (snd (previous_node_update c node)) = Some node
+        /\ set_c_data (snd (previous_node_update c node)) (c_data c) = c)
+  /\ (forall node, previous_node_get c = None -> previous_node_update c node = (false, c))
+  /\ (hop_count_exceeded c = true <-> exists l k, hop_count_get c = Some (l, k) /\ l < k).
+Proof.
+  intros c. split; [intros l k; apply hop_count_increase_law|]. split; [intros a age; apply bundle_age_update_law|].
+  split; [intros age; apply bundle_age_update_none|]. split; [intros e node; apply previous_node_update_law|].
+  split; [intros node; apply previous_node_update_none|apply hop_count_exceeded_iff].
+Qed.
+(* non-vacuity: the bundle of C11_ex_build made with the constructors and BundleBuilder.payload() *)
+Example C11_ex_api_build :
+  bundle_builder_build (Some (ex_primary 1000))
+    (Some [new_bundle_age_block 2 0 0; new_hop_count_block 4 0 32; new_previous_node_block 3 0 eid_none])
+    (Some (map n2b [65;66;67])) = Some ex_b4.
+Proof. vm_compute. reflexivity. Qed.
+Example C11_ex_primary_builder :
+  primary_builder_build (mkpb None None (Some (Dtn 1 (map n2b [47;47;100;47]))) (Some (Dtn 1 (map n2b [47;47;115;47]))) None
+                              (Some (1000, 0)) (Some 3600000) None None) = Some (ex_primary 1000)
+  /\ primary_builder_build (mkpb (Some 4) None None (Some (Ipn 2 1 1)) None None None None None) = None.
+Proof. vm_compute. split; reflexivity. Qed.
+
 Check C11_invariant : forall m b0 ops, start_ok b0 -> Forall (op_admissible b0) ops ->
   exists b, fold_res (step m) ops b0 = Ok b /\ Inv b /\ payload b = last_payload_set b0 ops
             /\ (let '(bs, b') := to_cbor b in from_cbor bs = Ok b').
@@ -156,3 +240,11 @@ Print Assumptions C11_std_bundle.
 Print Assumptions C11_step.
 Print Assumptions C11_inv_reading.
 Print Assumptions C11_ex_final_inv.
+Print Assumptions C11_bundle_builder.
+Print Assumptions C11_from_builder.
+Print Assumptions C11_builder_payload_last.
+Print Assumptions C11_constructors_admissible.
+Print Assumptions C11_constructors_valid.
+Print Assumptions C11_primary_builder.
+Print Assumptions C11_std_bundle_api.
+Print Assumptions C11_block_ops.
